@@ -412,8 +412,13 @@ def _gen_scripted(rng: Rng):
     return dict(kind="scripted", shape=shape, global_rng=rng.random() < 0.3, data=data, ops=ops, tail=tail)
 
 
+SIM_KINDS = ["kl", "kl_multi", "kl_2d", "kl_mixed", "brownian", "brownian_geometric", "brownian_fractional", "datasets", "kl_1pt", "kl_2pt"]
+
+
 def _gen_real(rng: Rng, kind):
-    sim = rng.choice(["kl", "kl", "kl_multi", "kl_2d", "kl_mixed", "brownian", "datasets", "kl_1pt", "kl_2pt"])
+    # every simulator kind x every operation (each kind may override an operation)
+    sim = rng.choice(["kl", "kl", "kl_multi", "kl_2d", "kl_mixed", "brownian", "brownian_geometric", "brownian_geometric", "brownian_fractional",
+                      "datasets", "kl_1pt", "kl_2pt"])
     return dict(kind=kind, sim=sim, seed=rng.choice([None, rng.randint(0, 10**6)]), n_obs=rng.randint(1, 5),
                 m=rng.randint(3, 9), r2=rng.choice([0.0, 0.0, 0.25, 1.0, 2.5]),
                 p=rng.choice([0.0, 0.0, 0.1, 0.5, 0.9, 1.0]), e=rng.choice([0.0, 0.05, 0.3, 1.0]),
@@ -425,6 +430,13 @@ def gen_cases(rng: Rng, tier):
     n_s, n_r, n_l = dict(quick=(170, 60, 50), thorough=(2500, 700, 600))[tier]
     for _ in range(n_s):
         yield _gen_scripted(rng)
+    # every simulator kind x every operation, every run (a simulator class may override an operation):
+    # positive variance so that the recorded draws are compared with noisy - data
+    for i, sim in enumerate(SIM_KINDS):
+        for j, op in enumerate(("N", "S", "C")):
+            c = _gen_real(rng, "real")
+            c.update(sim=sim, op=op, r2=(0.25, 1.0, 2.5)[(i + j) % 3], seed=(None if (i + j) % 4 == 0 else c["seed"] or 7), p=(0.5, 0.9, 0.1)[(i + j) % 3], grid="systematic")
+            yield c
     for _ in range(n_r):
         yield _gen_real(rng, "real")
     for _ in range(n_l):
@@ -711,8 +723,8 @@ def _real_sim(case):
                           argvals=[DenseArgvals({"input_dim_0": t, "input_dim_1": np.linspace(0, 1, 3)}), DenseArgvals({"input_dim_0": np.linspace(-1, 1, m)})],
                           random_state=seed)
         s.new(n_obs=n_obs)
-    elif kind == "brownian":
-        s = Brownian(name="standard", random_state=seed)
+    elif kind.startswith("brownian"):
+        s = Brownian(name={"brownian": "standard", "brownian_geometric": "geometric", "brownian_fractional": "fractional"}[kind], random_state=seed)
         s.new(n_obs=n_obs, argvals=t)
     else:
         s = Datasets(basis_name="zhang_chen", random_state=seed)
